@@ -79,6 +79,16 @@ func iterateShared(fn subscription.IterateFn, options subscription.IterationOpti
 		if node == nil {
 			return true
 		}
+		if isSystemTopic(options.TopicName) {
+			// The Server MUST NOT match Topic Filters starting with a wildcard character (# or +) with Topic Names beginning with a $ character [MQTT-4.7.2-1]
+			matched := fn
+			fn = func(clientID string, sub *gmqtt.Subscription) bool {
+				if f := sub.TopicFilter; len(f) != 0 && (f[0] == '+' || f[0] == '#') {
+					return true
+				}
+				return matched(clientID, sub)
+			}
+		}
 		if options.ClientID != "" {
 			for _, v := range node[options.ClientID] {
 				if !fn(options.ClientID, v) {
